@@ -360,8 +360,8 @@ def q2c(sa1: int, sb1: int, sa2: int, sb2: int) -> str:
 
 QUERIES.append(
     {"name": "Q2c", "fn": q2c,
-     "shards": {"quick": [{"sa1": k} for k in range(5)], "thorough": [{"sa1": k, "be": b} for k in range(5) for b in ("slurm", "sge", "lsf", "local")]},
+     "shards": {"quick": [{"sa1": k} for k in range(5)] + [{"sa1": k, "be": "local"} for k in (0, 1, 2)], "thorough": [{"sa1": k, "be": b} for k in range(5) for b in ("slurm", "sge", "lsf", "local")]},
      "timeout": {"quick": 900, "thorough": 1800},
-     "bound": "three `gwf run` invocations on a chain of 2 through the real TrackingBackend (state file on the VFS) and the simulator: after the first run each accepted job is pending / running / failed / cancelled / done (symbolic), "
+     "bound": "three `gwf run` invocations on a chain of 2 through the real TrackingBackend (state file on the VFS) and the simulator (Slurm, and the local pool whose first task id is 0; thorough: all four backends): after the first run each accepted job is pending / running / failed / cancelled / done (symbolic), "
               "after the second each new job pending or running; submissions and prerequisite ids must follow the plan for each target's latest accepted job"})
 META["real"] = META["real"] + ["gwf.plugins.run.run (body)", "gwf.backends.base.TrackingBackend.__init__/close (persistence across invocations)", "gwf.backends.slurm.*"]
